@@ -173,7 +173,7 @@ def one_dup(acc, hist, cfg, seed, i, rec0, case, keep=False):
                                      "detail": {"command": cmd, "conn": c, "side": side, "problems": problems}, "step": i}})
 
 
-def check_history(acc, hist, cfg, seed, case, maxdup, rnd):
+def check_history(acc, hist, cfg, seed, case, maxdup, rnd, both=False):
     rec0, cnt = observe(hist, cfg, seed)
     acc.steps += cnt["steps"]
     acc.frames += cnt["frames"]
@@ -181,7 +181,12 @@ def check_history(acc, hist, cfg, seed, case, maxdup, rnd):
     if len(el) > maxdup:
         el = sorted(rnd.sample(el, maxdup))
     for n, i in enumerate(el):
-        one_dup(acc, hist, cfg, seed, i, rec0, "%s@%d" % (case, i), keep=bool((n + seed) % 2))
+        if both:
+            # directed histories: the duplicate's connection goes away at once, and (second run) stays
+            one_dup(acc, hist, cfg, seed, i, rec0, "%s@%d" % (case, i), keep=False)
+            one_dup(acc, hist, cfg, seed, i, rec0, "%s@%d+" % (case, i), keep=True)
+        else:
+            one_dup(acc, hist, cfg, seed, i, rec0, "%s@%d" % (case, i), keep=bool((n + seed) % 2))
     acc.cases += 1
     if el:
         acc.distinct.add(hhash(hist))
@@ -266,7 +271,7 @@ def run_job(pid, job, acc):
     import random
     if job["kind"] == "dirdup2":
         h = dir_hist2(job["i"])
-        check_history(acc, h, Config(usage=bool(job["i"] % 2)), job["i"], "dirdup2:%d" % job["i"], 50, random.Random(0))
+        check_history(acc, h, Config(usage=bool(job["i"] % 2)), job["i"], "dirdup2:%d" % job["i"], 50, random.Random(0), both=True)
         return
     if job["kind"] == "directed":
         for case, hist, cfg, opts in scenarios.build(pid, job["name"], job["params"]):
@@ -274,7 +279,7 @@ def run_job(pid, job, acc):
         return
     if job["kind"] == "dirdup":
         h = dir_hist(job["i"])
-        check_history(acc, h, Config(usage=bool(job["i"] % 2)), job["i"] // 2, "dirdup:%d" % job["i"], 50, random.Random(0))
+        check_history(acc, h, Config(usage=bool(job["i"] % 2)), job["i"] // 2, "dirdup:%d" % job["i"], 50, random.Random(0), both=True)
         return
     s = job["seed"]
     hist = generate(s, **GEN)
